@@ -24,9 +24,12 @@ def run(rep):
     obls += [(rounding.rounding, ("SpecialRounding", k, -50, 75, 1500)) for k in keys]
     results = base.run_obligations(rep, obls)
     cands = [c for x in results for c in x["cands"]]
+    ims_open = any((x["cands"] or x["inconclusive"]) for x in results if x["name"].startswith("get_imsaak"))
+    if ims_open and not cands:
+        pp.imsaak_grid(rep)      # an undecided get_imsaak obligation (e.g. changed signature): let the public-API judge look
     if cands:
         ok = pp.confirm_kadj(rep, results, None)
-        if any(x["cands"] for x in results if x["name"].startswith("get_imsaak")):
+        if ims_open:
             ok = pp.imsaak_grid(rep) or ok
         from . import c11
         ok = c11.confirm_rounding(rep, results) or ok
